@@ -429,6 +429,28 @@ def _restore_rules(db: DB, rep: Report, hm) -> None:
               "%s): the result is left partitioned / flattened under a name that claims the declared ranks" %
               sorted(outs))
 
+    # ---- W10: the variable a tensor is bound to is named by Tensor.tensor_name() -------------
+    # (the method knows about the '_flat' suffix of a flattened input that keeps its user's
+    # variable untouched; a name assembled by hand from root_name() and the ranks does not)
+    rep.rule("W10", "a tensor variable named after a Tensor object is spelled by its tensor_name()", 4)
+    for f10 in db.all_functions(["teaal.trans."]):
+        for n in walk_no_nested(f10.node):
+            if not (isinstance(n, ast.Call) and isinstance(n.func, ast.Name) and n.func.id in ("AVar", "EVar")
+                    and len(n.args) == 1):
+                continue
+            txt = paths.flow_text(n.args[0], n, f10.node)
+            if ".tensor_name()" in txt:
+                rep.check("W10", True, db.loc(n), f10.short, "tensor-var:" + norm(n)[:50],
+                          "%s is named by tensor_name()" % norm(n)[:40], "")
+            elif ".root_name()" in txt and ("'_'" in txt or '"_"' in txt) and ".join(" in txt and \
+                    ("get_ranks()" in txt or "get_init_ranks()" in txt):
+                rep.check("W10", False, db.loc(n), f10.short, "tensor-var:" + norm(n)[:50],
+                          "", "%s names a tensor variable by hand (%s) instead of asking the Tensor for its "
+                          "tensor_name(): the '_flat' suffix that keeps a flattened copy apart from the "
+                          "user's input is lost, so the emitted assignment rebinds the input variable "
+                          "itself and a later Einsum that reads the input gets the flattened tensor" %
+                          (f10.short, txt[:80]))
+
     # ---- W9: unpartition gives up early only when it has planned nothing to undo ------------
     rep.rule("W9", "Partitioner.unpartition returns without emitting anything only when the planned list of "
              "transformations is empty", 1)
@@ -569,6 +591,9 @@ def mutants(db: DB):
     eq, hd, ie = "teaal/trans/equation.py", "teaal/trans/header.py", "teaal/ir/equation.py"
     pt = "teaal/trans/partitioner.py"
     return [
+        M("fromFiber target named by hand (C07-u3)", hd,
+          "        tensor_name = AVar(tensor.tensor_name())",
+          "        tensor_name = AVar(tensor.root_name() + \"_\" + \"\".join(tensor.get_ranks()))", "W10"),
         M("unpartition gives up when the Einsum has no partitioning (C05-u3)", pt,
           "        # Build a list of the transformations that the tensor will go through\n        trans: List[",
           "        if not part_ir.get_all_parts():\n            return block\n\n        # Build a list of the transformations that the tensor will go through\n        trans: List[", "W9"),
